@@ -4,6 +4,7 @@ package main
 
 import (
 	"fmt"
+	"go/token"
 	"go/types"
 	"sort"
 	"strings"
@@ -42,12 +43,32 @@ func (c *Ctx) fieldWriters(typeName string) map[string]map[string]bool {
 	return out
 }
 
+// exclusiveHelpers: the functions of package engine that are reachable from Run/RunFiles only through `through`.
+func (c *Ctx) exclusiveHelpers(through *ssa.Function) map[*ssa.Function]bool {
+	out := map[*ssa.Function]bool{}
+	if through == nil {
+		return out
+	}
+	roots := c.runRoots()
+	for f := range c.Reachable(through) {
+		if f != through && c.isRepoFn(f) && f.Pkg == through.Pkg && c.onlyThrough(roots, through, f) {
+			out[f] = true
+		}
+	}
+	return out
+}
+
 func ruleSingleWriter(c *Ctx, rule string) {
 	r := c.R
 	w := c.fieldWriters("SearchEngineState")
 	if len(w) == 0 {
 		r.Ob(rule, "anchor engine.SearchEngineState", "").Und("no field writers found")
 		return
+	}
+	consume := c.stateMethod("CONSUME")
+	helperNames := map[string]bool{}
+	for f := range c.exclusiveHelpers(consume) {
+		helperNames[fnName(f)] = true
 	}
 	allowed := map[string][]string{}
 	for _, f := range []string{"currentFileOffset", "currentMatch", "currentLineNum", "currentColumnNum"} {
@@ -60,9 +81,13 @@ func ruleSingleWriter(c *Ctx, rule string) {
 		ob := r.Ob(rule, "writers of SearchEngineState."+f, "")
 		var extra []string
 		for fn := range w[f] {
-			if !contains(allowed[f], fn) {
-				extra = append(extra, fn)
+			if contains(allowed[f], fn) {
+				continue
 			}
+			if helperNames[fn] && contains(allowed[f], "(*engine.SearchEngineState).CONSUME") {
+				continue // a helper that only CONSUME can reach is part of the consumption primitive
+			}
+			extra = append(extra, fn)
 		}
 		sort.Strings(extra)
 		var ws []string
@@ -80,75 +105,126 @@ func ruleSingleWriter(c *Ctx, rule string) {
 
 func ruleCoherentStep(c *Ctx, rule string) {
 	r := c.R
-	fn := c.Method("engine", "SearchEngineState", "CONSUME")
-	if fn == nil {
-		r.Ob(rule, "anchor engine.(*SearchEngineState).CONSUME", "").Und("not found")
+	fn := c.stateMethod("CONSUME")
+	readF := c.stateMethod("READ")
+	if fn == nil || readF == nil {
+		r.Ob(rule, "anchor engine.(*SearchEngineState).CONSUME / READ", "").Und("not found")
 		return
 	}
-	stores := map[string][]string{}
-	var rng *ssa.Range
+	// by role: v is what CONSUME reads through READ
+	var readCall *ssa.Call
+	nread := 0
+	instrsOf(fn, func(in ssa.Instruction) {
+		if call, ok := in.(*ssa.Call); ok && call.Call.StaticCallee() == readF {
+			readCall = call
+			nread++
+		}
+	})
+	ob := r.Ob(rule, "CONSUME appends exactly what it read and advances the offset by its length", c.pos(fn.Pos()))
+	if nread != 1 {
+		ob.Und(fmt.Sprintf("CONSUME calls READ %d time(s); expected exactly one read", nread))
+		return
+	}
+	V := exprStr(readCall)
+	isFieldLoad := func(v ssa.Value, field string) bool {
+		u, ok := v.(*ssa.UnOp)
+		if !ok {
+			return false
+		}
+		fa, ok := u.X.(*ssa.FieldAddr)
+		return ok && fieldName(deref(fa.X.Type()), fa.Field) == field
+	}
+	isLenOfV := func(v ssa.Value) bool {
+		call, ok := v.(*ssa.Call)
+		if !ok {
+			return false
+		}
+		b, ok := call.Call.Value.(*ssa.Builtin)
+		return ok && b.Name() == "len" && len(call.Call.Args) == 1 && call.Call.Args[0] == ssa.Value(readCall)
+	}
+	stores := map[string][]ssa.Value{}
 	instrsOf(fn, func(in ssa.Instruction) {
 		if st, ok := in.(*ssa.Store); ok {
 			if fa, ok := st.Addr.(*ssa.FieldAddr); ok {
 				f := fieldName(deref(fa.X.Type()), fa.Field)
-				stores[f] = append(stores[f], exprStr(st.Val))
+				stores[f] = append(stores[f], st.Val)
 			}
 		}
-		if rg, ok := in.(*ssa.Range); ok {
-			rng = rg
-		}
 	})
-	V := "es.READ(amount)"
-	ob := r.Ob(rule, "CONSUME appends exactly what it read and advances the offset by its length", c.pos(fn.Pos()))
-	okM := len(stores["currentMatch"]) == 1 && stores["currentMatch"][0] == "(es.currentMatch + "+V+")"
-	okO := len(stores["currentFileOffset"]) == 1 && stores["currentFileOffset"][0] == "(es.currentFileOffset + len("+V+"))"
+	okM, okO := false, false
+	if len(stores["currentMatch"]) == 1 {
+		if b, ok := stores["currentMatch"][0].(*ssa.BinOp); ok && b.Op == token.ADD && isFieldLoad(b.X, "currentMatch") && b.Y == ssa.Value(readCall) {
+			okM = true
+		}
+	}
+	if len(stores["currentFileOffset"]) == 1 {
+		if b, ok := stores["currentFileOffset"][0].(*ssa.BinOp); ok && b.Op == token.ADD {
+			if (isFieldLoad(b.X, "currentFileOffset") && isLenOfV(b.Y)) || (isFieldLoad(b.Y, "currentFileOffset") && isLenOfV(b.X)) {
+				okO = true
+			}
+		}
+	}
+	render := func(vs []ssa.Value) []string {
+		var out []string
+		for _, v := range vs {
+			out = append(out, exprStr(v))
+		}
+		return out
+	}
 	if okM && okO {
 		ob.OKnt("currentMatch += v; currentFileOffset += len(v) for the same v = " + V)
 	} else {
-		ob.Bad(fmt.Sprintf("currentMatch <- %v; currentFileOffset <- %v; expected currentMatch + v and currentFileOffset + len(v) for one and the same v = %s (READ returns \"\" at end of input, so advancing by the requested amount is wrong)", stores["currentMatch"], stores["currentFileOffset"], V))
+		ob.Bad(fmt.Sprintf("currentMatch <- %v; currentFileOffset <- %v; expected currentMatch + v and currentFileOffset + len(v) for one and the same v = %s (READ returns \"\" at end of input, so advancing by the requested amount is wrong)", render(stores["currentMatch"]), render(stores["currentFileOffset"]), V))
 	}
 	ob2 := r.Ob(rule, "CONSUME derives the line and column updates from the text it read", c.pos(fn.Pos()))
-	// every value stored to the line/column counters must be data-dependent on v (or be the constant that restarts the column)
-	var readCall ssa.Value
-	instrsOf(fn, func(in ssa.Instruction) {
-		if call, ok := in.(*ssa.Call); ok && exprStr(call) == V {
-			readCall = call
-		}
-	})
-	if readCall == nil {
-		ob2.Bad("CONSUME does not call " + V)
-		return
-	}
-	deps := dataDeps(fn, map[ssa.Value]bool{readCall: true})
-	cds := NewPostDom(fn).ControlDeps()
+	// every value stored to the line/column counters must be data- or control-dependent on v; helpers that only CONSUME reaches
+	// are examined with the parameters that receive v-dependent arguments as sources
 	var bad []string
 	n := 0
-	instrsOf(fn, func(in ssa.Instruction) {
-		st, ok := in.(*ssa.Store)
-		if !ok {
-			return
-		}
-		fa, ok := st.Addr.(*ssa.FieldAddr)
-		if !ok {
-			return
-		}
-		f := fieldName(deref(fa.X.Type()), fa.Field)
-		if f != "currentLineNum" && f != "currentColumnNum" {
-			return
-		}
-		n++
-		if deps[st.Val] {
-			return
-		}
-		// not data-dependent: then the store must be controlled by a condition that is (e.g. inside the range over v)
-		for _, l := range condsOf(cds, st.Block()) {
-			if deps[l.Cond] {
-				return
+	var examine func(f *ssa.Function, src map[ssa.Value]bool, depth int)
+	helpers := c.exclusiveHelpers(fn)
+	examine = func(f *ssa.Function, src map[ssa.Value]bool, depth int) {
+		deps := dataDeps(f, src)
+		cds := NewPostDom(f).ControlDeps()
+		instrsOf(f, func(in ssa.Instruction) {
+			switch x := in.(type) {
+			case *ssa.Store:
+				fa, ok := x.Addr.(*ssa.FieldAddr)
+				if !ok {
+					return
+				}
+				fld := fieldName(deref(fa.X.Type()), fa.Field)
+				if fld != "currentLineNum" && fld != "currentColumnNum" {
+					return
+				}
+				n++
+				if deps[x.Val] {
+					return
+				}
+				for _, l := range condsOf(cds, x.Block()) {
+					if deps[l.Cond] {
+						return
+					}
+				}
+				bad = append(bad, fmt.Sprintf("%s <- %s [%s]", fld, exprStr(x.Val), c.pos(x.Pos())))
+			case *ssa.Call:
+				sc := x.Call.StaticCallee()
+				if sc == nil || !helpers[sc] || depth >= 2 {
+					return
+				}
+				psrc := map[ssa.Value]bool{}
+				for i, a := range x.Call.Args {
+					if deps[a] && i < len(sc.Params) {
+						psrc[sc.Params[i]] = true
+					}
+				}
+				if len(psrc) > 0 {
+					examine(sc, psrc, depth+1)
+				}
 			}
-		}
-		bad = append(bad, fmt.Sprintf("%s <- %s [%s]", f, exprStr(st.Val), c.pos(st.Pos())))
-	})
-	_ = rng
+		})
+	}
+	examine(fn, map[ssa.Value]bool{readCall: true}, 0)
 	if n < 2 {
 		ob2.Bad("CONSUME does not update both the line and the column counter")
 	} else if len(bad) > 0 {
@@ -253,9 +329,19 @@ func ruleReplacementAccumulates(c *Ctx, rule string) {
 		})
 	}
 	r.Floor(rule, "stores to ReplacerState.match.Replacement", n, 1)
-	// who writes Match fields at all
+	ruleWhoWritesMatch(c, rule, true)
+}
+
+// ruleWhoWritesMatch: a match record is written by MakeMatch only (and its Replacement by the replacer's write primitives): what a
+// command reports for a match - number, offsets, text, variables - is what the scan produced, whatever window or command uses it.
+func ruleWhoWritesMatch(c *Ctx, rule string, withReplacement bool) {
+	r := c.R
 	w := c.fieldWriters("Match")
+	rsT := c.NamedType("engine", "ReplacerState")
 	for _, f := range sortedKeys(w) {
+		if f == "Replacement" && !withReplacement {
+			continue
+		}
 		ob := r.Ob(rule, "writers of engine.Match."+f, "")
 		var ws []string
 		for fn := range w[f] {
@@ -265,8 +351,8 @@ func ruleReplacementAccumulates(c *Ctx, rule string) {
 		var bad []string
 		for _, fn := range ws {
 			okW := fn == "(*engine.SearchEngineState).MakeMatch"
-			if f == "Replacement" && (fn == "(*engine.ReplacerState).WRITESTRING" || fn == "(*engine.ReplacerState).WRITEVAR") {
-				okW = true
+			if f == "Replacement" && rsT != nil && strings.HasPrefix(fn, "(*engine.ReplacerState).") {
+				okW = true // the replacer's own write primitives (appending is checked per store above)
 			}
 			if !okW {
 				bad = append(bad, fn)
@@ -275,7 +361,7 @@ func ruleReplacementAccumulates(c *Ctx, rule string) {
 		if len(bad) == 0 {
 			ob.OKnt("written only by " + strings.Join(ws, ", "))
 		} else {
-			ob.Bad("a match record is modified after MakeMatch built it, in " + strings.Join(bad, ", ") + ": the matches of a replace command no longer equal those of the find command with the same body")
+			ob.Bad("a match record is modified after MakeMatch built it, in " + strings.Join(bad, ", ") + ": the matches of a replace command, or of a window, no longer equal those of the find command with the same body")
 		}
 	}
 }
@@ -365,7 +451,19 @@ func rulePerMatchReplacer(c *Ctx, rule string) {
 					fromMatch = true
 				}
 			}
+			// a helper that runs the replacer program for the one match it is handed: the state is created per call
+			perCall := false
+			if outer == nil || !outer[ini.Block()] {
+				mT := c.NamedType("engine", "Match")
+				for _, a := range ini.Call.Args {
+					if prm, ok := a.(*ssa.Parameter); ok && mT != nil && types.Identical(prm.Type(), mT) {
+						perCall = true
+					}
+				}
+			}
 			switch {
+			case perCall:
+				ob.OKnt(exprStr(ini) + " on the match handed to " + sr.Name() + ": one state per call; the replacer program runs on it and on executeReplace results only")
 			case outer == nil || !outer[ini.Block()]:
 				ob.Bad(init.Name() + " is not called inside the loop over the matches: one replacer state (variables, replacement text) is shared by all matches of the command")
 			case !fromMatch:
@@ -398,6 +496,43 @@ func rulePerMatchReplacer(c *Ctx, rule string) {
 			}
 		}
 	})
+	if !okApp {
+		// the helper returns the state's match and a caller appends that result
+		retMatch := false
+		instrsOf(sr, func(in ssa.Instruction) {
+			if ret, ok := in.(*ssa.Return); ok && len(ret.Results) == 1 && strings.HasSuffix(exprStr(ret.Results[0]), ".match") {
+				retMatch = true
+			}
+		})
+		if retMatch {
+			for _, caller := range c.callersIn("engine", sr) {
+				instrsOf(caller, func(in ssa.Instruction) {
+					call, ok := in.(*ssa.Call)
+					if !ok {
+						return
+					}
+					if b, ok := call.Call.Value.(*ssa.Builtin); !ok || b.Name() != "append" || len(call.Call.Args) != 2 {
+						return
+					}
+					if sl, ok := call.Call.Args[1].(*ssa.Slice); ok {
+						if a, ok := sl.X.(*ssa.Alloc); ok {
+							for _, ref := range *a.Referrers() {
+								if ia, ok := ref.(*ssa.IndexAddr); ok {
+									for _, r2 := range *ia.Referrers() {
+										if st, ok := r2.(*ssa.Store); ok {
+											if cv, ok := st.Val.(*ssa.Call); ok && cv.Call.StaticCallee() == sr {
+												okApp = true
+											}
+										}
+									}
+								}
+							}
+						}
+					}
+				})
+			}
+		}
+	}
 	ob2.Check(okApp, "append(replacedMatches, current_state.match)", "the value appended to the result is not the replacer state's match")
 	// the initial state's variables are a deep copy of the match's variables plus the built-ins: nothing is carried over from another match
 	if init == nil {
@@ -586,6 +721,37 @@ func ruleEnvFresh(c *Ctx, rule, pkg, typ, consequence string) {
 			n++
 			k++
 			ob := r.Ob(rule, fmt.Sprintf("%s: process run #%d gets an environment of its own (field %s)", fnName(fn), k, st.Field(fa.Field).Name()), c.pos(s.Pos()))
+			if prm, isParam := s.Val.(*ssa.Parameter); isParam {
+				// a helper that runs the statements on an environment it is handed: every caller must hand it a fresh one
+				idx := -1
+				for i, p := range fn.Params {
+					if p == prm {
+						idx = i
+					}
+				}
+				ncall, problem := 0, ""
+				for _, caller := range c.SrcFuncs(pkg) {
+					for _, cl := range callsTo(caller, fn) {
+						ncall++
+						if idx < 0 || idx >= len(cl.Call.Args) {
+							problem = "call with unexpected arity"
+							continue
+						}
+						if fresh, why := c.deepFresh(cl.Call.Args[idx], 0); !fresh {
+							problem = fnName(caller) + " passes " + why
+						}
+					}
+				}
+				switch {
+				case ncall == 0:
+					ob.Und("the environment is a parameter and no caller was found")
+				case problem != "":
+					ob.Bad("the environment of the run is a parameter and " + problem + ", a map that outlives the run: " + consequence)
+				default:
+					ob.OKnt(fmt.Sprintf("the environment is a parameter; all %d caller(s) create the map for the run", ncall))
+				}
+				return
+			}
 			if fresh, why := c.deepFresh(s.Val, 0); fresh {
 				ob.OKnt("the map is created in this function for this run")
 			} else {
@@ -593,7 +759,7 @@ func ruleEnvFresh(c *Ctx, rule, pkg, typ, consequence string) {
 			}
 		})
 	}
-	r.Floor(rule, "process-run construction sites", n, 2)
+	r.Floor(rule, "process-run construction sites", n, 1)
 }
 
 // ruleReplacerOwnsItsTables extends C05.R3: no table that is written while one match is being replaced is carried to the next match.
